@@ -546,6 +546,7 @@ pub fn write_replay(prop: &str, space: &str, id: u64, case: Value, v: &Violation
     let path = format!("{}/{}-{}.json", dir, sp, id);
     let j = json!({
         "property": prop, "space": space, "case_id": id, "case": case,
+        "tier": std::env::var("VERIF_TIER").unwrap_or_else(|_| "quick".into()),
         "key": v.key, "detail": v.detail,
         "replay": format!("/verif/check {} replay {}", prop, path),
     });
